@@ -13,7 +13,7 @@ using Pub = cocls::publisher<long>;
 using Sub = cocls::subscriber<long>;
 using ST = cocls::subscribtion_type;
 const char *mode_name(ST t) { return t == ST::all_values ? "all" : t == ST::skip_if_behind ? "skip_if_behind" : "skip_to_recent"; }
-enum { PUBLISHED = 0, CLOSED = 1, PUB_STARTED = 4, EAGER_N = 2, EAGER_EOS = 3, EAGER_LOG = 100, RD_N = 1000 /* per reader count */, RD_EOS = 1010, RD_SUBPOS_LO = 1020, RD_SUBPOS_HI = 1030, RD_KICKED = 1040, RD_LASTPOS = 1050, RD_LOG = 2000 /* 200 per reader */ };
+enum { PUBLISHED = 0, CLOSED = 1, PUB_STARTED = 4, EAGER_N = 2, EAGER_EOS = 3, EAGER_LOG = 100, RD_N = 1000 /* per reader count */, RD_EOS = 1010, RD_SUBPOS_LO = 1020, RD_SUBPOS_HI = 1030, RD_KICKED = 1040, RD_LASTPOS = 1050, RD_LEFT = 1060, RD_LOG = 2000 /* 200 per reader */ };
 
 // eager coroutine reader: consumes everything as soon as it is published
 cocls::async<void> eager_reader(Sub &s) {
@@ -157,9 +157,14 @@ void multi_thread() {
         // ... and only on an unlimited queue: on a bounded one the unrecognisable 'false' may also be the lag end-of-stream
         if (kind[i] == 3 && !unlimited) kind[i] = 1;
     }
+    // a blocking reader may, after 'quota' reads and while the publisher is still at work, leave (destroy its subscriber) or go on
+    // with a copy of its subscriber (the original leaves): registration slots are freed and reused under concurrency
+    int act[3] = {0, 0, 0}, quota[3] = {0, 0, 0};
+    for (int i = 0; i < ns; i++) if (kind[i] == 1 && !kick[i]) { act[i] = dsim::choose(3); quota[i] = 1 + dsim::choose(3); }
+    unsigned batches = dsim::flip() ? dsim::choose(256) << 1 : 0;
     bool destroy = dsim::flip();
-    dsim::plan_note("threads max=%s%zu min=%zu publishes=%d destroy=%d", unlimited ? "unlimited/" : "", maxq, minq, npub, (int)destroy);
-    for (int i = 0; i < ns; i++) dsim::plan_note(" R%d:kind%d,%s%s", i, kind[i], mode_name(mode[i]), kick[i] ? ",kicked" : "");
+    dsim::plan_note("threads max=%s%zu min=%zu publishes=%d batches=%x destroy=%d", unlimited ? "unlimited/" : "", maxq, minq, npub, batches, (int)destroy);
+    for (int i = 0; i < ns; i++) dsim::plan_note(" R%d:kind%d,%s%s%s", i, kind[i], mode_name(mode[i]), kick[i] ? ",kicked" : "", act[i] == 1 ? ",leaves" : act[i] == 2 ? ",copies" : "");
     auto pub = unlimited ? std::make_unique<Pub>() : std::make_unique<Pub>(maxq, minq);
     std::unique_ptr<Sub> subs[3];
     std::vector<std::thread> th;
@@ -171,7 +176,16 @@ void multi_thread() {
         vs::cell_set_hb(RD_SUBPOS_HI + i, dsim::cell_get(PUB_STARTED) + 1);     // publishes STARTED when subscribe returned (+1: marks "set")
         switch (kind[i]) {
         case 0: coro_reader(s, i).join(); break;
-        case 1: while (s.next()) reader_record(i, s.value(), s); break;
+        case 1: {
+            Sub *cur = &s; long cnt = 0;
+            while (cur->next()) {
+                reader_record(i, cur->value(), *cur);
+                if (act[i] && ++cnt == quota[i]) {
+                    if (act[i] == 1) { subs[i].reset(); dsim::cell_set(RD_LEFT + i, 1); break; }
+                    auto c = std::make_unique<Sub>(*cur); subs[i] = std::move(c); cur = subs[i].get();      // continues independently from the original's position
+                }
+            }
+            break; }
         case 2: for (long v : s) reader_record(i, v, s); break;
         case 4: { CbReader r(s, i); cocls::future<void> fin; r.done = fin.get_promise(); r.pump(); fin.wait(); break; }
         default:
@@ -186,9 +200,13 @@ void multi_thread() {
         dsim::cell_set(RD_EOS + i, 1);
     });
     std::thread pt([&] {
-        for (int k = 1; k <= npub; k++) {
-            dsim::cell_set(PUB_STARTED, k); dsim::event("publish", k); pub->publish((long)k); dsim::cell_set(PUBLISHED, k); dsim::event("published", k);
-            if (k == (npub + 1) / 2) for (int i = 0; i < ns; i++) if (kick[i] && vs::cell_get_hb(RD_SUBPOS_HI + i)) { pub->kick(subs[i].get()); dsim::cell_set(RD_KICKED + i, 1); }
+        for (int k = 1, b; k <= npub; k += b) {
+            b = ((batches >> k) & 1) && k < npub ? 2 : 1;          // single value or a batch of two through the iterator overload
+            int last = k + b - 1; long two[2] = {k, k + 1};
+            dsim::cell_set(PUB_STARTED, last); dsim::event("publish", k, b);
+            if (b == 2) pub->publish(&two[0], &two[2]); else pub->publish((long)k);
+            dsim::cell_set(PUBLISHED, last); dsim::event("published", last);
+            if (k <= (npub + 1) / 2 && (npub + 1) / 2 <= last) for (int i = 0; i < ns; i++) if (kick[i] && vs::cell_get_hb(RD_SUBPOS_HI + i)) { pub->kick(subs[i].get()); dsim::cell_set(RD_KICKED + i, 1); }
         }
         for (int i = 0; i < ns; i++) vs::wait_cell_hb(RD_SUBPOS_HI + i);    // nobody may still be inside subscribe() when the publisher goes away
         dsim::cell_set(CLOSED, 1);
@@ -214,7 +232,7 @@ void multi_thread() {
         if (!dsim::cell_get(RD_EOS + i)) dsim::fail("C16.close_did_not_wake", "reader %d never saw end-of-stream", i);
         // after close every value published before the close and still retained is delivered: an all_values reader that
         // could not have been more than max behind must end exactly at P
-        if (mode[i] == ST::all_values && !dsim::cell_get(RD_KICKED + i)) {
+        if (mode[i] == ST::all_values && !dsim::cell_get(RD_KICKED + i) && !dsim::cell_get(RD_LEFT + i)) {
             long first_pos = n ? dsim::cell_get(RD_LOG + 200 * i) - 1 : lo;          // earliest possible subscription point
             bool could_lag = !unlimited && P - first_pos > (long)maxq;
             bool complete = n ? prev == P : hi >= P;                                   // read nothing: fine only if it may have subscribed at the very end
